@@ -31,6 +31,9 @@ MUTATORS = {"append", "extend", "insert", "pop", "remove", "clear", "sort", "rev
             "__setattr__", "__delattr__"}
 
 
+DICT_READERS = {"copy", "get", "items", "keys", "values", "__contains__"}
+
+
 def _root_self_attr(node, selfname="self"):
     """self.a / self.a.b / self.a[i] ... -> 'a' ; else None"""
     while isinstance(node, (ast.Attribute, ast.Subscript)):
@@ -181,7 +184,7 @@ def _sites(fn, decos, mutating):
         for t in tg:
             if selfname and isinstance(t, ast.Attribute) and isinstance(t.value, ast.Name) and t.value.id == selfname:
                 rhs = ast.unparse(s.value) if isinstance(s, (ast.Assign, ast.AnnAssign)) and s.value is not None else "?"
-                if isinstance(s, ast.Assign) and isinstance(s.value, ast.Name):
+                if isinstance(s, ast.Assign) and isinstance(s.value, ast.Name) and provenance(s.value.id):
                     rhs += " <- " + provenance(s.value.id)
                 stores.append(("store", t.attr, rhs, is_final(s)))
             elif selfname and isinstance(t, ast.Name) and t.id == selfname:
@@ -211,7 +214,9 @@ def _sites(fn, decos, mutating):
             if isinstance(n, ast.Call):
                 f = n.func
                 if isinstance(f, ast.Attribute):
-                    if selfname and ast.unparse(f.value) == selfname + ".__dict__":
+                    if selfname and ast.unparse(f.value) == selfname + ".__dict__" and f.attr in DICT_READERS:
+                        pass
+                    elif selfname and ast.unparse(f.value) == selfname + ".__dict__":
                         stores.append(("dict", ast.unparse(n), "", False))
                     elif f.attr in MUTATORS and selfname and _root_self_attr(f.value, selfname) is not None:
                         stores.append(("mutate", _root_self_attr(f.value, selfname), ast.unparse(n), False))
@@ -253,9 +258,13 @@ def gen_jacobi_stores():
           "Definition site : Set := (string * string * string * bool)%type.\n"
           "(* (receiver, field, enclosing statement or test) *)\n"
           "Definition read_site : Set := (string * string * string)%type.\n\n")
+    o += "(* every method the pass looked at; methods without any site are not listed below *)\n"
+    o += "Definition jacobi_methods : list string :=\n  [%s].\n\n" % "; ".join(_cs(m) for m, _ in st)
     o += "Definition jacobi_stores : list (string * list site) :=\n  [ "
     rows = []
     for m, sites in st:
+        if not sites:
+            continue
         rows.append("(%s,\n     [%s])" % (_cs(m), ";\n      ".join(
             "(%s, %s, %s, %s)" % (_cs(k), _cs(a), _cs(d), "true" if f else "false") for k, a, d, f in sites)))
     o += ";\n    ".join(rows) + " ].\n\n"
